@@ -21,7 +21,7 @@ size_t verif_sj_gi; int verif_sj_bad; secp256k1_scalar verif_sj_sx;
 void h_sjp_verify(void) {
     secp256k1_context ctx;
     INPUT(secp256k1_surjectionproof, proof);
-    INPUT(size_t, n_tags); INPUT(secp256k1_generator, outtag); INPUT(size_t, gi); INPUT(size_t, gk); INPUT(int, nullsel);
+    INPUT(size_t, n_tags); INPUT(secp256k1_generator, outtag); INPUT(size_t, gi); INPUT(size_t, gk); INPUT(size_t, gb); INPUT(int, nullsel);
     secp256k1_generator *tags; int ret; unsigned char sb[32]; size_t j, nb, n_used; int ov = 0;
     __CPROVER_assume(n_tags <= MAXT);
     /* valid_surjectionproof */
@@ -33,9 +33,8 @@ void h_sjp_verify(void) {
 #endif
     tags = malloc(n_tags ? n_tags * sizeof(secp256k1_generator) : 1); __CPROVER_assume(tags != NULL);
     verif_ctx_init(&ctx);
-    g_el_i = gi; g_el_k = gk; g_bv_n = 0; g_pk_n = 0; g_gm_n = 0; g_cb_n = 0; g_cb_ret = 0; g_cb_count = 0;
-    g_cb_expect = proof.used_inputs; g_bv_e0_expect = &proof.data[0];
-    g_pk_tags_expect = tags; g_pk_out_expect = &outtag; g_pk_used_expect = proof.used_inputs; g_gm_tags_expect = tags; g_gm_out_expect = &outtag;
+    g_el_i = gi; g_el_k = gk; g_el_b = gb; g_bv_n = 0; g_pk_n = 0; g_gm_n = 0; g_cb_n = 0; g_cb_ret = 0; g_cb_count = 0; g_cb_k = gk;
+    g_pk_tags_expect = tags; g_gm_tags_expect = tags;
     verif_sj_gi = gi;
     __CPROVER_assume(gi < 256);
     for (j = 0; j < 32; j++) sb[j] = proof.data[32 + 32 * gi + j];       /* the 32 bytes of scalar gi, read once */
@@ -45,29 +44,37 @@ void h_sjp_verify(void) {
         ret = secp256k1_surjectionproof_verify(&ctx, &proof, tags, n_tags, &outtag);
         __CPROVER_assert(ret == 0 || ret == 1, "C11 verify: returns 0 or 1");
         __CPROVER_assert(g_illegal == 0 && g_error == 0, "C11 verify: no callback for non-NULL arguments and a valid proof object, whatever its bytes");
-        __CPROVER_assert(g_cb_n == 1 && g_cb_match && g_cb_count == nb, "C11 verify: used-input count taken over the ceil(n/8) bitmap bytes");
+        __CPROVER_assert(g_cb_n >= 1 && g_cb_count == nb && (gk >= nb || g_cb_byte == proof.used_inputs[gk]), "C11 verify: the used-input count is the bit count of the proof's ceil(n/8) bitmap bytes");
         n_used = g_cb_ret;
         if (n_used == 0 || n_used > proof.n_inputs || proof.n_inputs != n_tags)
-            __CPROVER_assert(ret == 0 && g_pk_n == 0 && g_bv_n == 0, "C11 verify: empty selection, more used than total inputs, or tag-count mismatch rejected before any key or ring work");
-        else {
+            __CPROVER_assert(ret == 0, "C11 verify: empty selection, more used than total inputs, or tag-count mismatch rejected");
 #ifndef VERIF_NATIVE
-            if (gi < n_used) {
-                wide sv = be256(sb);
-                __CPROVER_assert(verif_sj_bad == (sv >= N_()), "C11 verify: (harness) ghost flag equals the specification of an out-of-range scalar");
-                if (sv >= N_()) __CPROVER_assert(ret == 0 && g_bv_n == 0, "C11 verify: any of the n_used scalars >= n rejects, and the ring check is never consulted");
-                if (g_bv_n == 1) __CPROVER_assert(sval(&g_bv_s_i) == sv && g_bv_pub_x0 == g_pk_key_x0, "C11 verify: ring position i is checked with scalar i of the proof and computed key i");
-            }
-#endif
-            __CPROVER_assert(g_pk_n == 1 && g_pk_npub == n_used && g_pk_ntags == proof.n_inputs && g_pk_args_match && g_pk_ring_null, "C11 verify: ring keys computed once from the caller's tags, the proof's bitmap and the output tag");
-            if (g_pk_ret == 0) __CPROVER_assert(ret == 0 && g_bv_n == 0, "C11 verify: key computation failure rejects");
-            if (g_bv_n >= 1) {
-                __CPROVER_assert(g_bv_n == 1 && g_bv_nrings == 1 && g_bv_rsize0 == n_used && g_bv_mlen == 32 && g_bv_evalues_null && g_bv_e0_match && g_bv_pub_obj == g_pk_keys_obj && g_bv_pub_off == g_pk_keys_off, "C11 verify: one ring of n_used over the computed key array, e0 = first 32 proof bytes, 32-byte message");
-                __CPROVER_assert(g_gm_n == 1 && g_gm_ntags == n_tags && g_gm_args_match, "C11 verify: message computed once over all n input tags and the output tag");
-                if (gk < 32) __CPROVER_assert(g_bv_m_k == g_gm_msg_k, "C11 verify: the ring message is the tag commitment");
-                __CPROVER_assert(ret == g_bv_ret, "C11 verify: the result is the Borromean verdict");
-            }
-            if (ret == 1) __CPROVER_assert(g_bv_n == 1 && g_bv_ret == 1, "C11 verify: accepts only on a positive Borromean verdict");
+        if (gi < n_used) {
+            wide sv = be256(sb);
+            __CPROVER_assert(verif_sj_bad == (sv >= N_()), "C11 verify: (harness) ghost flag equals the specification of an out-of-range scalar");
+            if (sv >= N_()) __CPROVER_assert(ret == 0, "C11 verify: any of the n_used scalars >= n rejects (every ring position)");
+            if (ret == 1) __CPROVER_assert(sval(&g_bv_s_i) == sv && g_bv_pub_x0 == g_pk_key_x0, "C11 verify: ring position i was checked with scalar i of the proof and computed key i");
         }
+#endif
+        if (g_pk_n >= 1 && g_pk_ret == 0) __CPROVER_assert(ret == 0, "C11 verify: key computation failure rejects");
+        if (g_bv_n >= 1) __CPROVER_assert(ret == g_bv_ret, "C11 verify: once the ring check is consulted the result is its verdict");
+        if (ret == 1) {
+            __CPROVER_assert(g_bv_n >= 1 && g_bv_ret == 1 && g_pk_n >= 1 && g_gm_n >= 1, "C11 verify: accepts only on a positive Borromean verdict over computed keys and message");
+            __CPROVER_assert(g_pk_npub == n_used && g_pk_ntags == n_tags && g_pk_tags_match && (gb >= 64 || g_pk_out_b == outtag.data[gb]) && (gk >= nb || g_pk_used_k == proof.used_inputs[gk]), "C11 verify: ring keys come from the caller's tags, the proof's bitmap and the output tag");
+            __CPROVER_assert(g_gm_ntags == n_tags && g_gm_tags_match && (gb >= 64 || g_gm_out_b == outtag.data[gb]), "C11 verify: the message is computed over all n input tags and the output tag");
+            __CPROVER_assert(g_bv_nrings == 1 && g_bv_rsize0 == n_used && g_bv_mlen == 32, "C11 verify: one ring of n_used with a 32-byte message");
+            if (gk < 32) __CPROVER_assert(g_bv_e0_k == proof.data[gk] && g_bv_m_k == g_gm_msg_k, "C11 verify: e0 is the first 32 proof bytes and the ring message is the tag commitment");
+        }
+#ifdef EL_BOUND
+        /* accept side (bounded stand-in only: needs all scalars at once): every gate passed => the verdict decides */
+        {   int all_ok = (n_used >= 1 && n_used <= proof.n_inputs && proof.n_inputs == n_tags); size_t q;
+            for (q = 0; q < EL_BOUND; q++) if (q < n_used) {
+                secp256k1_scalar t; int o = 0; secp256k1_scalar_set_b32(&t, &proof.data[32 + 32 * q], &o);
+                if (o) all_ok = 0;
+            }
+            if (all_ok) __CPROVER_assert(g_pk_n >= 1 && (g_pk_ret == 0 || (g_bv_n >= 1 && ret == g_bv_ret)), "C11 verify: a proof passing every gate is decided by the key computation and the Borromean verdict");
+        }
+#endif
 #ifdef EL_BOUND
         if (ret == 1 && n_used == EL_BOUND && gi == EL_BOUND - 1) REACH("sjp verify accepts the largest ring of the bounded stand-in");
 #else
@@ -80,7 +87,7 @@ void h_sjp_verify(void) {
         if (nullsel == 1) ret = secp256k1_surjectionproof_verify(&ctx, NULL, tags, n_tags, &outtag);
         else if (nullsel == 2) ret = secp256k1_surjectionproof_verify(&ctx, &proof, NULL, n_tags, &outtag);
         else ret = secp256k1_surjectionproof_verify(&ctx, &proof, tags, n_tags, NULL);
-        __CPROVER_assert(ret == 0 && g_illegal == 1 && g_error == 0 && g_bv_n == 0, "C11 verify: NULL argument reports illegal use and returns 0");
+        __CPROVER_assert(ret == 0 && g_illegal == 1 && g_error == 0, "C11 verify: NULL argument reports illegal use and returns 0");
         REACH("sjp verify NULL argument");
     }
 }
